@@ -178,12 +178,36 @@ def exc_class(e):
     return "other:" + type(e).__name__
 
 
+# C05/C06 decode twice (history independence); C04 (totality with declared errors only) judges the single decode
+POISON = True
+
+
 def dec_outcome(raw: bytes) -> str:
-    """`APCI.from_knx(raw)` → canonical outcome incl. re-encoding and calculated_length."""
+    """`APCI.from_knx(raw)` → canonical outcome incl. re-encoding and calculated_length.
+
+    History independence (harness/lib/poison.py): the octets are decoded twice, the first result's attributes are overwritten in
+    between; a decoder handing out shared mutable objects shows up as `other:SharedMutableState`."""
+    if not POISON:
+        return _dec_once(raw, False)
+    first = _dec_once(raw, True)
+    out = _dec_once(raw, False)
+    return out if out == first else "other:SharedMutableState"
+
+
+def _dec_once(raw: bytes, spoil: bool) -> str:
+    from harness.lib.poison import poison
     try:
         obj = apci.APCI.from_knx(raw)
     except Exception as e:  # noqa: BLE001
         return exc_class(e)
+    try:
+        return _render_dec(obj)
+    finally:
+        if spoil:
+            poison(obj)
+
+
+def _render_dec(obj) -> str:
     try:
         enc = "x" + bytes(obj.to_knx()).hex()
     except Exception:  # noqa: BLE001  any refusal
